@@ -163,6 +163,20 @@ func recvSyn(x ast.Expr) string {
 	return ""
 }
 
+// recvTypeName: the defined type a method is declared on, however the receiver is written (T, *T, (*T), *(T), an
+// alias of T, a generic T[...]); the written form only where the expression has no type (F22)
+func (e *enc) recvTypeName(x ast.Expr) string {
+	if t := e.typeOf(x); t != nil {
+		if p, ok := types.Unalias(t).(*types.Pointer); ok {
+			t = p.Elem()
+		}
+		if n, ok := types.Unalias(t).(*types.Named); ok {
+			return n.Obj().Name()
+		}
+	}
+	return recvSyn(x)
+}
+
 func (e *enc) nodeKind(n ast.Node) {
 	switch nn := n.(type) {
 	case *ast.FuncDecl:
@@ -299,7 +313,7 @@ func (e *enc) decl(d ast.Decl) {
 		}
 		if dd.Recv != nil && len(dd.Recv.List) > 0 {
 			f := dd.Recv.List[0]
-			e.w("R", hx(recvSyn(f.Type)))
+			e.w("R", hx(e.recvTypeName(f.Type)))
 			if len(f.Names) > 0 {
 				e.w(hx(f.Names[0].Name))
 			} else {
